@@ -176,6 +176,36 @@ def check_norm(o):
             bad.append((tag + ": normalised values differ from (x - mean) / scale", {"got": got, "want": want}, None))
         if not np.array_equal(px, keep) or (not isinstance(x, np.ndarray) and not np.array_equal(x.pixels, keep)):
             bad.append((tag + ": the normaliser modified its input", {}, None))
+        # the same request through the generic normaliser with the matching scale statistic, and with the options given by position:
+        # same outcome, same values, same kind of result
+        def _stat(v, axis=None):
+            if c["stat"] == "std":
+                return np.std(v, axis=axis)
+            if c["stat"] == "var":
+                return np.var(v, axis=axis)
+            return np.sqrt(np.sum(np.asarray(v) ** 2, axis=axis))
+
+        fresh = x.copy()
+        calls = [("normalize(x, scale_func=..., mode=..., error_on_divide_by_zero=...)",
+                  lambda: mf.normalize(fresh, scale_func=_stat, mode=c["mode"], error_on_divide_by_zero=c["raise"])),
+                 ("normalize(x, scale_func, mode, error_on_divide_by_zero) [positional]", lambda: mf.normalize(fresh, _stat, c["mode"], c["raise"])),
+                 ("%s(x, mode, error_on_divide_by_zero) [positional]" % f.__name__, lambda: f(fresh, c["mode"], c["raise"]))]
+        for ctag, call in calls:
+            try:
+                with warnings.catch_warnings():
+                    warnings.simplefilter("ignore")
+                    r2 = call()
+                g2 = r2 if isinstance(r2, np.ndarray) else r2.pixels
+                out2 = "value"
+            except ValueError:
+                out2 = "ValueError"
+            except Exception as e:
+                bad.append(("%s: %s raised %s" % (tag, ctag, type(e).__name__), {"msg": str(e)[:120]}, None))
+                continue
+            if out2 != outcome:
+                bad.append(("%s: %s gives %s, the keyword call of %s gives %s" % (tag, ctag, out2, f.__name__, outcome), {}, None))
+            elif out2 == "value" and (type(r2) is not type(r) or g2.shape != got.shape or not np.allclose(g2, got, rtol=1e-9, atol=1e-12 * max(1.0, float(np.abs(got).max())))):
+                bad.append(("%s: %s differs from the keyword call of %s" % (tag, ctag, f.__name__), {}, None))
         if o["outcome"] == "ok" and c["stat"] in ("std", "norm") and outcome == "value":
             with warnings.catch_warnings():
                 warnings.simplefilter("ignore")
